@@ -8,7 +8,7 @@ B/C. The real TaggedSeries.parse, CacheFeedingProcessor.process (observed: the k
    name handed to the client manager) on (i) arbitrary strings over ; ! ^ = ~ { } " \\ , and letters
    - judged against Tags!ParseCarbon / Stored - and (ii) valid series rendered in every order of
    up to 4 tags (all 24 permutations) in carbon and OpenMetrics syntax, with and without a 'name'
-   tag - all must give Tags!Canon, and normalising the result again must not change it.
+   tag - all must give Tags!Canon, and feeding the result to the cache again must store it unchanged.
 """
 import itertools
 import random
@@ -99,11 +99,14 @@ def run(ctx):
               'and without a name tag, plus OpenMetrics renderings that violate a tag rule; non-trivial = case with at least two tags '
               'or a reserved character')
   ctx.assumptions += ['tag sets have distinct keys (duplicate keys are last-wins in the code and outside the property)',
-                      'OpenMetrics parsing is judged through rendered series only (its regex is not transcribed)']
+                      'a text that is both a canonical carbon name and an OpenMetrics rendering breaking a tag rule is rejected and stored as received: idempotence is judged on the stored name']
   base = dict(MaxLen=ctx.pick(5, 6), Alphabet='{59,61,126,33,97,98}', MaxTags=3)
   cx = dict(Names='{<<97>>,<<126,97>>,<<98,97>>}', Keys='{<<97>>,<<98>>,<<97,98>>}', Vals='{<<97>>,<<98,126>>,<<61>>,<<33,97>>}')
-  for mode, inv in (('strings', 'Idempotent'), ('series', 'Canonical')):
+  cx['Vals'] = cx['Vals'][:-1] + ',<<123,97,61,34,97,34,125>>,<<34,125>>}'     # {a="a"}  and  "}
+  for mode, inv, alpha in (('strings', 'Idempotent', None), ('strings', 'Idempotent', '{59,61,97,123,125,34,44}'), ('series', 'Canonical', None)):
     c = dict(base)
+    if alpha:
+      c['Alphabet'] = alpha
     c['Mode'] = '"%s"' % mode
     mc, files, sub = tlc.mc_wrap('Tags', cx)
     c.update(sub)
@@ -121,8 +124,8 @@ def run(ctx):
     x = ''.join(rng.choice(ALPHA if rng.random() < 0.5 else 'ab;=~') for _ in range(n))
     if rng.random() < 0.1:
       x = x + ';name=' + rng.choice(['a', '~b', ''])
-    if x.endswith('"}') and '{' in x:
-      continue
+    if rng.random() < 0.15:
+      x = x + rng.choice(['{a="b"}', '"}', '={b="a",a="b"}', '{a="\\""}', '{a="b":,b="a"}', '{a="b",}', '{a="~"}', '{a=""}'])
     ok, parsed = te.parse(x)
     recs.append(dict(kind='carbon', str=codes(x), ok=ok, parsed=codes(parsed), stored=codes(te.stored(x)),
                      relayed=codes(te.relayed(x)), text=x))
@@ -139,6 +142,10 @@ def run(ctx):
         k = 'name'
       keys.add(k)
     tags = [(k, ''.join(rng.choice(valc) for _ in range(rng.randint(1, 3)))) for k in sorted(keys)]
+    if tags and rng.random() < 0.2:
+      # a value that itself looks like OpenMetrics syntax (the canonical form then ends in '"}' after a '{')
+      j = rng.randrange(len(tags))
+      tags[j] = (tags[j][0], rng.choice(['{b="a"}', 'a{b="a"}', '{"}', '"}', '{b="a",c="b"}']))
     invalid_om = rng.random() < 0.15 and nt > 0
     if invalid_om:
       j = rng.randrange(nt)
@@ -163,7 +170,7 @@ def run(ctx):
         if syntax == 'carbon' and (x.endswith('"}') and '{' in x):
           continue
         ok, parsed = te.parse(x)
-        ok2, again = te.parse(parsed) if ok else (0, '')
+        again = te.stored(parsed) if ok else ''
         recs.append(dict(kind='series', str=codes(x), name=codes(name), tags=[[codes(k), codes(v)] for k, v in perm], ok=ok,
                          parsed=codes(parsed), stored=codes(te.stored(x)), again=codes(again),
                          rejectexpected=1 if (invalid_om and syntax == 'om') else 0, text=x))
